@@ -25,34 +25,48 @@ BUDGET_S = {'quick': 50, 'thorough': 400}
 EXHAUSTIVE = {'quick': True, 'thorough': True}
 THOROUGH_WORKERS = 8
 TRUSTED = [
-    'statements in lean/ParamVerif/Props/C10.lean (ghost field `last` = most recent assignment; `Quiescent`, `HazardFree`)',
-    'spec-side oracle lean/ParamVerif/Async/Spec.lean and Async/Rx.lean (decidable check over the schedule and the observations only)',
-    'harness/props/c10.py adapter (drives a real asyncio loop; reads values, _param__private.async_refs / syncing / refs, a value watcher log; '
-    'uses loop._ready only to detect that the loop is idle)',
-    'asyncio semantics reproduced by the model, not verified: one FIFO ready queue, create_task starts at a later iteration, '
-    'Task.cancel() delivers CancelledError at the await at a later iteration (or via _must_cancel), a done future does not suspend',
+    'statements in lean/ParamVerif/Props/C10.lean (LatestWins / SupersededNeverApplied / PlainCancelsForGood / SyncingEmptyWhenQuiescent; '
+    'ghost field St.last = most recent assignment, proved equal to the schedule\'s lastOf; settled / allSettled / fromLatest / HazardFree '
+    'are the decidable functions of Async/Spec.lean)',
+    'spec-side oracle lean/ParamVerif/Async/Spec.lean (checkStep) and Async/Rx.lean (checkStep): decidable checks over the schedule '
+    'and the observations only, never the model',
+    'harness/props/c10.py adapter: drives a real asyncio loop; reads parameter values, _param__private.async_refs / syncing / refs and a '
+    'value watcher\'s log after every event; uses loop._ready only to detect that the loop is idle',
+    'asyncio semantics reproduced by the model, NOT verified: one FIFO ready queue, create_task starts the coroutine at a later iteration, '
+    'Task.cancel() on a suspended task delivers CancelledError at the await at a later iteration (on a running / not yet started / '
+    'already woken task via _must_cancel), awaiting a done future does not suspend, Future.set_result wakes the waiter through call_soon',
     'correspondence is differential testing: model = code only on the schedules executed',
-    'source facts read by harness/props/c10.py:extract (is the coroutine awaited inside `with _syncing`, is there a stale-reference '
-    'return, is the registration unconditional) select the model variant (Cfg); a wrong choice shows up as a correspondence mismatch',
+    'source facts read by harness/props/c10.py:_facts (is the coroutine awaited inside `with _syncing`; is there a stale-reference return '
+    'in _async_ref; is the registration unconditional) select the model variant Cfg reported in the observation; a wrong choice shows up '
+    'as a correspondence mismatch',
 ]
 ASSUMPTIONS = [
+    'PARTIAL on the unchanged tree: the _partial theorems hold for schedules that meet none of three explicit situations (hazA: plain '
+    'assignment while the name is in syncing; hazB: a coroutine assigned while another coroutine task is unfinished; hazD: an assignment '
+    'to a parameter whose previous asynchronous assignment has not started its task yet); C10_full is refuted (4 witness schedules, '
+    'replayed on the real code, reported as KNOWN-FINDING). The _fixed theorems (all schedules) are about the patched variant Cfg.fixed '
+    '(notes/c10-proposed-fix.diff), which /repo does not contain yet.',
     'one Parameterized instance with 2 allow_refs Parameters, initialised before the first event; integer results, pairwise distinct',
-    'hand-made futures are never shared between assignments; coroutine functions / async generator functions without dependencies '
-    '(so _sync_refs never re-schedules them); no references to other Parameters (C08)',
-    'NOT modelled: real timing; sync generator functions (_to_async_gen runs next() in a thread pool via asyncio.to_thread); '
-    'event loops other than asyncio\'s FIFO loop and user-supplied async_executor; the no-running-loop path of async_executor '
-    '(run_until_complete); the re-scheduling of _async_ref while the instance is uninitialised (unreachable on a running loop: '
-    'the constructor finishes before the task starts); exceptions raised by the awaitables',
-    'rx pipelines: one input, one `.rx.pipe(coroutine-returning function)` node, a `.rx.watch` callback; `param.rx(async_fn)` does not '
-    'evaluate the function (it wraps the function object), so it is not a pipeline through a coroutine',
+    'hand-made futures are never shared between assignments (the k-th future of the t-th asynchronous assignment has id (t,k)); coroutine '
+    'functions / async generator functions without dependencies, so _sync_refs never re-schedules them (the unregistered re-scheduled '
+    'task is shown by notes/probes/p10_sync_refs_reschedule.py, outside the model); no references to other Parameters (C08)',
+    'NOT modelled: real timing; sync generator functions (_to_async_gen runs next() in a thread pool via asyncio.to_thread); event loops '
+    'other than asyncio\'s FIFO loop and user-supplied async_executor; the no-running-loop path of async_executor (run_until_complete); the '
+    're-scheduling of _async_ref while the instance is uninitialised (unreachable on a running loop: the constructor finishes before the '
+    'task starts); exceptions raised by the awaitables (Skip included)',
+    'rx pipelines: one input, one `.rx.pipe(async def)` node with a `.rx.watch` callback (watcher deliveries of the unchanged old value on '
+    'every input change are modelled, Undefined/None deliveries are not recorded); a plain function returning a coroutine is NOT supported '
+    'by rx (no Trigger is created: _resolve_async stores the value and then fails on self._trigger.param), and `param.rx(async_fn)` wraps the '
+    'function object without calling it, so neither is a pipeline through a coroutine; async generators through pipe are not exercised',
 ]
-RULE = ('quick: EVERY schedule of <=2 assignments (coroutine / async generator with 2 awaits / plain, on 1-2 parameters) and every schedule '
-        'of 3 coroutine-or-plain assignments: every order of the completions relative to the assignments and to each other x a tick or not '
-        'between any two events (final tick always); plus a directed prefix (the witness schedules, completion before the await, '
-        'out-of-order generator futures) and random schedules of <=5 assignments. thorough: <=3 assignments with generators exhaustively, '
-        'random schedules of <=5 assignments, and rx pipelines (<=4 input changes, every completion order and tick placement). '
-        'After every event the observation is compared with the model and checked by the oracle. non-trivial = at least one result of an '
-        'awaitable was applied; distinct = distinct canonical case')
+RULE = ('quick: EVERY schedule of <=2 assignments (coroutine / async generator with 2 awaits / plain, on 1-2 parameters; completions also '
+        'before the assignment) and every schedule of 3 coroutine-or-plain assignments: every order of the completions relative to the '
+        'assignments and to each other x a tick or not between any two events (final tick always) = 11k schedules; plus corpus + directed '
+        'prefix (witness schedules, completion before the await, out-of-order generator futures, woken-then-cancelled), 24 rx schedules '
+        'and 3000 random schedules of <=5 assignments. thorough: 3 assignments with generators exhaustively, 60000 random schedules of <=5 '
+        'assignments, and every rx schedule of <=3 input changes (every completion order and tick placement). After every event the '
+        'observation is compared with the model and checked by the oracle. non-trivial = at least one result of an awaitable was applied; '
+        'distinct = distinct canonical case')
 COVERAGE_TARGETS = ['assign:coro', 'assign:agen', 'assign:plain:unlink-and-cancel', 'assign:plain:not-linked',
                     'assign:coro:cancels-registered', 'assign:agen:cancels-registered',
                     'start:register', 'start:ran-to-end', 'start:suspend-generator',
@@ -169,7 +183,9 @@ async def _drive_param(case, loop):
             for k in range(n):
                 yield await fut(tid, k)
         return g
-    out = {'init': _snapshot(t, log), 'steps': []}
+    # `cfg`: which variant of the anchored code is installed (read from the source, see _facts);
+    # the driver replays the schedule on the model of that variant
+    out = {'cfg': facts(), 'init': _snapshot(t, log), 'steps': []}
     ntasks = 0
     for e in case['events']:
         kind = e['e']
@@ -279,7 +295,7 @@ def compare(impl, model):
 # ------------------------------------------------------------------ generation
 
 def _mk(events):
-    return {'kind': 'param', 'cfg': facts(), 'np': NP, 'events': events}
+    return {'kind': 'param', 'np': NP, 'events': events}
 
 
 def _values(tid, n):
@@ -466,10 +482,7 @@ def _rx_schedules(nset):
 def cases(rng, tier, worker, nworkers):
     if worker == 0:
         for f in sorted(glob.glob(os.path.join(os.path.dirname(__file__), '..', '..', 'corpus', 'C10', '*.json'))):
-            c = json.load(open(f))['case']
-            if c.get('kind') == 'param':
-                c = dict(c, cfg=facts())
-            yield c
+            yield json.load(open(f))['case']
         for name in sorted(WITNESSES):
             yield _from_spec(WITNESSES[name])
     i = 0
